@@ -32,6 +32,9 @@ WV = {
 def _work(units):
     acc = progcheck.Acc()
     for salt, wname, tier in units:
+        if wname == "ab":  # (whatever was compiled before in this process - an unterminated comment, an error)
+            impl.build('def warmup { return "a" weighted 1 } /* TODO')
+            impl.build('def e { return "a" weighted }')
         values = vals.ALL + ([vals.LONG] if tier == "thorough" or wname == "ab" and salt is None else [])
         ast1 = ("prog", "e", salt, ("uid",), ("ret", WV[wname]))
         ev = progcheck.check_prog(acc, ast1, [{"uid": v} for v in values], "single", want_sample=(wname == "123"))
